@@ -158,9 +158,12 @@ def random_ratio_cases(ex, tier, seed, rep, stats):
             continue
         L = rnd.uniform(-3, 3)
         a = [rnd.uniform(-2, 2) for _ in range(nt)]
+        if c % 4 == 1:          # complex limit and coefficients (also with a real ratio)
+            L = L + 1j * rnd.uniform(-3, 3)
+            a = [x + 1j * rnd.uniform(-2, 2) for x in a]
         h = np.array([ratio ** (-i) for i in range(S)])
         seq = L + sum(a[j] * h ** (order + step * j) for j in range(nt)) if nt else L + 0 * h
-        if not np.iscomplexobj(ratio):
+        if not np.iscomplexobj(ratio) and not isinstance(L, complex):
             seq = np.real(seq)
         try:
             new, err, _ = obj(np.asarray(seq)[:, None], np.abs(h)[:, None])
@@ -176,6 +179,14 @@ def random_ratio_cases(ex, tier, seed, rep, stats):
             rep.violation('value:random', dict(case=name, got=[complex(z) for z in new[:, 0]], L=L), '%s: sequence with only modelled terms is mapped to %s, not to L = %r' % (name, new[:, 0].tolist(), L))
         if not (np.asarray(err) >= 0).all():
             rep.violation('abserr-negative:random', dict(case=name), '%s: negative error estimate' % name)
+        # the same sequence as a plain 1-d array (one column alone) must give that column
+        try:
+            new1, err1, _ = obj(np.asarray(seq), np.abs(h))
+            if np.shape(new1) != (S - nt,) or np.abs(np.asarray(new1) - new[:, 0]).max() > tol2:
+                rep.violation('one-dimensional:random', dict(case=name, got=[complex(z) for z in np.ravel(new1)], column=[complex(z) for z in new[:, 0]]),
+                              '%s: the sequence given as a 1-d array is mapped to %s, as a column of a matrix to %s' % (name, np.ravel(new1).tolist(), new[:, 0].tolist()))
+        except Exception as ex_:
+            rep.violation('call-raises:random', dict(case=name), '%s: __call__ on a 1-d sequence raised %r' % (name, ex_))
 
 
 def run(tier, rep):
